@@ -6,6 +6,7 @@
     returns [None] (the distinguished UB outcome) when its precondition fails.
     Definitions only. *)
 From Brood Require Export Base.
+From Brood Require Export Facts.
 
 Set Implicit Arguments.
 
@@ -223,10 +224,15 @@ Definition do_insert (w : world) (ent : list (nat * val)) : result :=
   let archs2 := upd_arch sh (fun rows => rows ++ [(id, canon_vals sh ent)]) archs1 in
   Some (with_store w archs2 tid1 slots1 free1 (S (w_len w)), OId id, []).
 
-(** [World::extend].  [Batch<Null>] (no components) has length 0 whatever the
-    number of rows written in [entities!] — the code path as it is (finding F5). *)
+(** [World::extend].  The number of entities of a batch is kept in the batch.  Whether it is the number of
+    rows written also for a batch WITHOUT columns ([entities!((); n)], [entities!((), (), ())]) — or is read
+    off the first column, hence 0 for such a batch (finding F5, before its repair) — is read off the
+    source: [fact_batch_carries_row_count]. *)
+Definition batch_rows_gen (carries : bool) (comps : list nat) (rows : list (list val)) : list (list val) :=
+  if carries then rows else match comps with [] => [] | _ => rows end.
 Definition batch_rows (comps : list nat) (rows : list (list val)) : list (list val) :=
-  match comps with [] => [] | _ => rows end.
+  batch_rows_gen fact_batch_carries_row_count comps rows.
+Arguments batch_rows : simpl never.
 
 Definition do_extend (w : world) (comps : list nat) (rows0 : list (list val)) : result :=
   if negb (wf_comps (w_n w) comps
